@@ -7,7 +7,7 @@ PTarget(o) == IF o.op \in {"Add", "AddAllSteps", "Remove"} THEN {o.s} ELSE IF o.
 POpFailed(e, m2) ==
   IF Has(e, "panic") THEN {"C19.PathSetOpPanics"} ELSE
   UNION {(IF AsSet(e.slots[s]) = m2[s] /\ Len(e.slots[s]) = Cardinality(m2[s]) THEN {}
-          ELSE IF s \in PTarget(e.o) THEN {"C19.PathSetMatchesModel"} ELSE {"C20.PathSetIsolation"}) : s \in PSlots}
+          ELSE IF s \in PTarget(e.o) THEN {"C19.PathSetMatchesModel"} ELSE {"C19.PathSetMatchesModel", "C20.PathSetIsolation"}) : s \in PSlots}
   \cup (IF e.o.op = "Has" /\ e.res # (PPool[e.o.e].p \in m2[e.o.s]) THEN {"C19.PathSetHas"} ELSE {})
   \cup (IF e.o.op = "Equal" /\ e.res # (m2[e.o.s] = m2[e.o.t]) THEN {"C19.PathSetEqual"} ELSE {})
   \cup (IF e.o.op = "Empty" /\ e.res # (m2[e.o.s] = {}) THEN {"C19.PathSetEmpty"} ELSE {})
